@@ -20,12 +20,12 @@ type c19Shared struct {
 func c19Op(k int, sh *c19Shared, res *int) {
 	switch k {
 	case 0:
-		_, err := sh.tok.AuthorizerFor(WithSingularRootPublicKey(sh.rootPub))
+		_, err := sh.tok.AuthorizerFor(WithSingularRootPublicKey(sh.rootPub), gPatient)
 		if err == nil {
 			*res = 1
 		}
 	case 1:
-		a, err := sh.tok.AuthorizerFor(WithSingularRootPublicKey(sh.rootPub))
+		a, err := sh.tok.AuthorizerFor(WithSingularRootPublicKey(sh.rootPub), gPatient)
 		if err != nil {
 			return
 		}
@@ -36,7 +36,7 @@ func c19Op(k int, sh *c19Shared, res *int) {
 			*res = 1
 		}
 	case 2:
-		a, err := sh.tok.AuthorizerFor(WithSingularRootPublicKey(sh.rootPub))
+		a, err := sh.tok.AuthorizerFor(WithSingularRootPublicKey(sh.rootPub), gPatient)
 		if err != nil {
 			return
 		}
